@@ -424,7 +424,20 @@ func jsonDocs(depth int) []string {
 		all = append(all, next...)
 		cur = next
 	}
+	// number spellings: exponents of either sign and case, magnitudes beyond what a float64
+	// holds exactly or at all, long digit strings, short literals of every length up to 16
+	for _, x := range jsonNumberSpellings() {
+		all = append(all, x, "["+x+"]", `{"a":`+x+"}", "["+x+",1]", "[0.5,"+x+"]")
+	}
 	return all
+}
+
+func jsonNumberSpellings() []string {
+	out := []string{"1e22", "1e23", "-3e25", "1.5e30", "7e100", "1e308", "1.7976931348623157e308", "1e309", "1e400", "-1e400", "1e-400", "2.5e-320", "5e-324", "1e-7", "1E-7", "1e+2", "1E+2", "2.5e0", "25e-1",
+		"9007199254740993", "123456789012345", "1234567890123456", "12345678901234567", "0.1234567890123", "0.12345678901234567", "0.000000000931322574615478515625",
+		"340282346638528859811704183484516925440", "3.4028234663852886e38", "18446744073709551615", "18446744073709551616", "-9223372036854775808", "-9223372036854775809",
+		"0.30000000000000004", "0.1000000000000000055511151231257827021181583404541015625", "1.00000000000000000000000000000000000001", "100e-2", "0e0", "-0.0", "0.0e-5"}
+	return out
 }
 
 // structural type of a parsed document (the reference implied type), ok=false
